@@ -293,7 +293,7 @@ def run(ctx):
 
     # ---- leg B: random registries ------------------------------------------------------------------
     items = []
-    for k in range(ctx.pick(4000, 120000)):
+    for k in range(ctx.pick(4000, 90000)):
         regs = [{'cls': rng.choice(H.ALL_CLASSES), 'beh': rng.choice(ALL_BEHS)} for _ in range(rng.randint(0, 6))]
         trace, case, runs = H.random_trace(rng, asgi=bool(k & 1), ncomp=rng.randint(0, 3), maxhooks=1, regs=regs,
                                            classes=H.ALL_CLASSES, maxfaults=3, render_p=0.15, rich=True,
@@ -315,7 +315,7 @@ def run(ctx):
     traces, cases = [], []
     tag = {'t': 'application', 's': 'x-verif-tag'}
     axml = {'t': 'application', 's': 'xml'}
-    for k in range(ctx.pick(2500, 40000)):
+    for k in range(ctx.pick(2500, 30000)):
         st, ctor = random_ctor(rng)
         cell = {'acc': random_accept(rng), 'xmlOn': rng.random() < 0.7, 'extra': rng.choice([[], [tag], [axml], [tag, axml]]),
                 'err': {'status': st, 'desc': rng.random() < 0.5, 'code': rng.random() < 0.5, 'link': rng.random() < 0.5,
